@@ -250,14 +250,18 @@ def r02_3(ctx):
             spelled = opt.value if isinstance(opt, EnumV) else to_text(opt)
             ctx.check(f"{cb}[{op}] operator member", spelled == op, f"{ecls} member spelled {op!r}", f"{to_text(opt)}", fn_where(idx, fi))
     # unary ~ - !
-    for op, ncls, ea in (("~", "BitOp", "Promo(items[1])"), ("-", "BitOp", "Promo(items[1])"), ("!", "BooleanOp", "items[1]")):
+    # ... for every kind of operand: a plain int, a narrow or wide one, and a truth value (C: `~(a < b)` is ~0 or ~1, an int)
+    kinds = (("int", lambda: mk_vt("t1", True, 32), "Pure"), ("uint8", lambda: mk_vt("t1", False, 8), "LocalVar"), ("int64", lambda: mk_vt("t1", True, 64), "Register"),
+             ("truth value of a comparison", lambda: mk_vt("t1", False, 1, ("PURE", "BOOL")), "CompareOp"), ("truth value of &&", lambda: mk_vt("t1", False, 1, ("PURE", "BOOL")), "BooleanOp"))
+    for (op, ncls, ea), (kname, mk_t, kcls) in [(x, y) for x in (("~", "BitOp", "Promo(items[1])"), ("-", "BitOp", "Promo(items[1])"), ("!", "BooleanOp", "items[1]")) for y in kinds]:
         r = Runner(idx)
-        fi, outs = r.run("unary_expr", lambda: [Tok("UNARY_OP", op), r.pure("items[1]", vt=mk_vt("t1", True, 32))])
+        r.fold = False
+        fi, outs = r.run("unary_expr", lambda: [Tok("UNARY_OP", op), r.pure("items[1]", vt=mk_t(), cls=kcls)])
         good = result_nodes(outs)
         ctx.need(good, f"unary_expr[{op}] has no translating path")
         for o in good:
             v = o.value
-            key = f"unary_expr[{op}] operand"
+            key = f"unary_expr[{op}] operand" + ("" if kname == "int" else f" ({kname})")
             if not (isinstance(v, AObj) and v.cls == ncls):
                 ctx.check(key, False, f"{ncls} node", lab(v), fn_where(idx, fi))
                 continue
@@ -369,10 +373,11 @@ def r02_5(ctx):
 
 @rule("R02.6", "C02", "constant operands: a literal has the type its suffix gives it, and constant sub-expressions the compiler evaluates itself have the C11 value and type", min_instances=40)
 def r02_6(ctx):
-    from .c09 import r09_2, small_literal_typing
+    from .c09 import literal_rendering, r09_2, small_literal_typing
 
     small_literal_typing(ctx)
     r09_2(ctx)
+    literal_rendering(ctx)  # ... and is printed with that value at that width (a folded mask ~0xffLL is a negative 64 bit constant)
 
 
 @rule("R02.7", "C02", "the conversions an operator applies to its operands change the representation, not the value: widening fills with the SOURCE's sign, a truth value becomes 0 / 1", min_instances=8)
